@@ -104,6 +104,34 @@ class Prop(PropBase):
             out["err"] = err_name(e)
             return out
         N = case["N"]
+        # history / joint evaluation (every 4th case): the same call repeated after a decoy call with other metadata must give
+        # the same values, and two different shifts of one Dask-backed signal evaluated in ONE graph must each equal the
+        # result computed alone
+        if case["seed"] % 4 == 0 and not np.allclose(seen, 0):
+            try:
+                import dask
+                import dask.array as da
+                zz = type(z).like(z, sample_rate=z.sample_rate * 2) if type(z).__name__ not in ("BasebandSignal", "DualPolarizationSignal") \
+                    else type(z).like(z, start_time=None)
+                d = pb.time_shift(zz, arg)
+                again = pb.time_shift(z, arg)
+                out["repeat_same"] = bool(np.array_equal(np.asarray(again.data), np.asarray(y0.data)))
+                if case["quantity"] and zz.sample_rate != z.sample_rate:
+                    # a time Quantity spans twice as many samples at twice the rate
+                    twice = pb.time_shift(z, 2 * seen)
+                    out["repeat_same"] = out["repeat_same"] and bool(np.allclose(np.asarray(d.data), np.asarray(twice.data), rtol=1e-5,
+                                                                                 atol=1e-5 * float(np.max(np.abs(np.asarray(z.data))))))
+                elif zz.sample_rate == z.sample_rate or not case["quantity"]:
+                    out["repeat_same"] = out["repeat_same"] and bool(np.array_equal(np.asarray(d.data), np.asarray(y0.data)))
+                zd = type(z).like(z, da.from_array(np.asarray(z.data), chunks=(-1,) + (1,) * (z.ndim - 1)))
+                arg2 = arg * 0.5 if not np.isscalar(arg) or True else arg
+                l1, l2 = pb.time_shift(zd, arg), pb.time_shift(zd, arg2)
+                a1, a2 = l1.data.compute(scheduler="synchronous"), l2.data.compute(scheduler="synchronous")
+                j1, j2 = dask.compute(l1.data, l2.data, scheduler="synchronous")
+                out["joint_same"] = bool(np.array_equal(j1, a1) and np.array_equal(j2, a2))
+                out["lazy_close"] = bool(np.allclose(a1, np.asarray(y0.data), rtol=1e-4, atol=1e-4 * float(np.max(np.abs(np.asarray(z.data))))))
+            except Exception as e:  # noqa
+                out["joint_err"] = err_name(e)
         out["same_object"] = bool(y0 is z)
         out["meta"] = bool(type(y0) is type(z) and y0.sample_rate == z.sample_rate and y0.shape == z.shape
                            and y0.dtype == z.dtype
@@ -189,6 +217,13 @@ class Prop(PropBase):
             return None                # mixed: some elements inside the excluded zone
         if not code["meta"]:
             return "type / sample_rate / start_time / shape / dtype changed by an uncropped shift"
+        if code.get("repeat_same") is False:
+            return "the same time_shift call repeated after a call on a signal with other metadata returned different values"
+        if code.get("joint_same") is False or code.get("lazy_close") is False:
+            return ("two different shifts of one Dask-backed signal evaluated in one graph differ from the results computed alone"
+                    if code.get("joint_same") is False else "the Dask-backed result differs from the NumPy-backed one")
+        if "joint_err" in code:
+            return f"time_shift on the Dask-backed copy raised {code['joint_err']}"
         shp = tuple(case["shp"]) + (1,) * (len(case["sshape"]) - len(case["shp"]))
         arr = np.array([float(v) for v in seen], dtype=object).reshape(shp) if case["sshape"] else None
         per = []
